@@ -6,6 +6,9 @@ from . import common as C
 FLAGS = ['start_p', 'start_v', 'start_a', 'start_j', 'end_p', 'end_v', 'end_a', 'end_j']
 BLOCKS = [('sv', 'start_v', 3), ('sa', 'start_a', 5), ('sj', 'start_j', 7), ('ev', 'end_v', 3), ('ea', 'end_a', 5), ('ej', 'end_j', 7)]
 ARGN = ['p', 'v', 'a', 'j', 's']
+# covering arrays over the 8 optimisation flags: every pair / every triple of flags takes all its value combinations in some row
+PAIRWISE = [0, 255, 135, 120, 83, 172, 226, 29]
+TRIPLEWISE = [0, 255, 90, 53, 166, 201, 212, 99, 184, 15, 108, 147]
 
 
 def flags_from_int(m):
